@@ -198,7 +198,14 @@ def run_case(ck, paths, reftool, idx):
     word = rng.choice(kal.ADMISSIBLE[kind])
     nt = rng.choice([1, 4, 16])
     ctx = {"kind": kind, "type": word, "idx": idx}
-    res, rows = kal.cli_align(ck, paths, recs=recs, word=word, nthreads=nt, ctx=ctx)
+    files = None
+    if rng.random() < 0.2:
+        # the last record (often a copy) ends the file without a newline
+        f_ = ck.tmp(".fa")
+        common.write_bytes(f_, fmt.write_fasta(recs, width=rng.choice([60, 1000])).rstrip("\n"))
+        files = [f_]
+        ck.count("inputs_without_final_newline")
+    res, rows = kal.cli_align(ck, paths, recs=recs, files=files, word=word, nthreads=nt, ctx=ctx)
     if rows is None:
         if res.proc.rc == 1:
             ck.violation("rejected-valid-input", res.stderr[-300:], dict(ctx, input=recs))
